@@ -290,12 +290,19 @@ def build_tu(spec, workdir):
     body, ex = lowered_body(spec, unit, log)
     if spec.kind == 'ctor-defaults':
         pass
+    # witness variables: entry-state values copied to named ghost globals so that a counterexample can be replayed natively
+    for name, cty, expr in spec.witness:
+        tu.add('%s W_%s;' % (cty, name))
     # function under proof
     fn_start = len(tu.lines) + 1
     tu.add('%s %s(%s)' % (spec.cret, spec.cname, spec.cparams))
     for text, label, kind in contract_lines(spec, None):
         tu.add(text, label, kind)
+    if spec.witness:
+        tu.add('__CPROVER_assigns(%s)' % ', '.join('W_' + n for n, _, _ in spec.witness))
     tu.add('{')
+    for name, cty, expr in spec.witness:
+        tu.add('  W_%s = %s;' % (name, expr))
     for text, label, kind in inject_loops_and_ats(body, spec, None):
         tu.add(text, label, kind)
     tu.add('}')
